@@ -18,7 +18,7 @@ INFO = {
                    "kinds or write access (runs that abort included): the table flag word is handed back unchanged "
                    "(obligation of the induction used by C01/C03/C05: seed C01-F). Arbitrary pre-state => covers operation sequences of "
                    "any length on these tables.",
-    "bounds": {"quick": {"NAREA": 2, "NREG": 3, "AWORDS": 6, "NMAX": 5, "geometries": geom.describe("quick")[:0] + ["see list in C02 evidence; subset g02 g03 g04 g07"]},
+    "bounds": {"quick": {"NAREA": 2, "NREG": 3, "AWORDS": 6, "NMAX": 5, "geometries": geom.describe("quick")[:0] + ["see list in C02 evidence; subset g02 g03 g04 g07 (+ g13 for block writes)"]},
                "thorough": {"NAREA": 3, "NREG": 4, "AWORDS": 6, "NMAX": 8, "geometries": "all of C02's thorough list"}},
     "outside_bounds": ["other geometries / larger tables", "sanitise on tables with always-fail constraints, with "
                        "skip-defaults or callback-less areas, or with unacceptable defaults (property restricts the "
@@ -45,11 +45,13 @@ def instances(tier):
           "reg_taint_in_range": nr + 2, "register_sanitise": nr + 2}
     gs = geom.geometries(tier)
     if tier == "quick":
-        gs = [g for g in gs if g[0] in ("g02", "g03", "g04", "g07")]
+        gs = [g for g in gs if g[0] in ("g02", "g03", "g04", "g07", "g13")]
     out = []
     for g in gs:
         for op in ("SET", "BITSET", "BITCLEAR", "BLOCKWRITE", "SANITISE", "SANITISEANY"):
-            if tier == "quick" and op == "BLOCKWRITE" and g[0] not in ("g02", "g04"):
+            if tier == "quick" and op == "BLOCKWRITE" and g[0] not in ("g02", "g04", "g13"):
+                continue
+            if tier == "quick" and g[0] == "g13" and op != "BLOCKWRITE":
                 continue
             if tier == "quick" and op == "SANITISEANY" and g[0] not in ("g02", "g07"):
                 continue
